@@ -2,23 +2,45 @@
 import crosshair.core_and_libs  # noqa: registers the library patches first
 from crosshair.core import _PATCH_REGISTRATIONS
 from crosshair.libimpl import builtinslib as _bl
-from crosshair.tracers import NoTracing
+from crosshair.tracers import NoTracing, ResumedTracing
 from crosshair.util import CrossHairValue
 
 _orig_format = _bl._format
 _ATOMS = (int, str, float, bool, type(None), bytes)
 _CONTAINERS = (list, dict, tuple, set, frozenset)
+SYMSTR_CONST = True      # harness META["symstr_format"] = "symbolic" switches to CrossHair's symbolic concatenation
+
+
+def _has_symbolic(obj, depth):
+    """(called under NoTracing) does a plain container hold a symbolic value somewhere?"""
+    if isinstance(obj, CrossHairValue):
+        return True
+    if depth > 6:
+        return True
+    if type(obj) in (list, tuple, set, frozenset):
+        return any(_has_symbolic(x, depth + 1) for x in obj)
+    if type(obj) is dict:
+        return any(_has_symbolic(k, depth + 1) or _has_symbolic(v, depth + 1) for k, v in obj.items())
+    if type(obj) in _ATOMS:
+        return False
+    return not isinstance(obj, (int, str, float, bytes))
+
+
 def _lazy_format(obj, format_spec=""):
     mode = 0
     with NoTracing():
         if isinstance(obj, CrossHairValue):
             if isinstance(obj, _bl.AnySymbolicStr):
+                if SYMSTR_CONST:
+                    return "<symstr>"
                 mode = 1
             else:
                 return "<sym>"
         elif type(obj) in _ATOMS:
             return format(obj, format_spec)
         elif isinstance(obj, _CONTAINERS):
+            if _has_symbolic(obj, 0):
+                return "<sym-container>"
             mode = 1
         else:
             mode = 2
@@ -35,3 +57,67 @@ _PATCH_REGISTRATIONS[format] = _lazy_format
 import functools as _ft
 _PATCH_REGISTRATIONS.pop(_ft.partial, None)
 _PATCH_REGISTRATIONS.pop(_ft._lru_cache_wrapper.__call__, None)
+
+
+# f-strings: `f"{symbolic_str}"` is spliced in symbolically by CrossHair's FORMAT_VALUE interceptor; tartiflette then
+# does `str(exception)` on messages built that way, which realises the whole string (endless enumeration).  With
+# SYMSTR_CONST the interpolated symbolic string becomes the constant "<symstr>" (message wording is outside every claim).
+import crosshair.opcode_intercept as _oi
+
+_orig_fv_trace_op = _oi.FormatValueInterceptor.trace_op
+
+
+def _fv_trace_op(self, frame, codeobj, codenum):
+    if SYMSTR_CONST:
+        flags = _oi.frame_op_arg(frame)
+        value_idx = -2 if flags == 0x04 else -1
+        orig_obj = _oi.frame_stack_read(frame, value_idx)
+        if isinstance(orig_obj, _bl.AnySymbolicStr):
+            _oi.frame_stack_write(frame, value_idx, "<symstr>")
+            return
+    return _orig_fv_trace_op(self, frame, codeobj, codenum)
+
+
+_oi.FormatValueInterceptor.trace_op = _fv_trace_op
+
+
+# "did you mean" suggestions (difflib on the offending value) and the `str(value)` feeding them are message
+# wording.  On a symbolic value they realise it (endless enumeration), so: get_close_matches(<symbolic>, ...) -> []
+# and str(<symbolic number>) -> "<sym>" *only* when called from the allow-listed message-building sites below.
+import difflib as _difflib
+import sys as _sys
+
+_MESSAGE_SITES = ("tartiflette/coercers/inputs/enum_coercer.py",)
+_orig_str_patch = _PATCH_REGISTRATIONS[str]
+
+
+def _msg_str(*a):
+    with NoTracing():
+        if len(a) == 1 and isinstance(a[0], CrossHairValue) and not isinstance(a[0], _bl.AnySymbolicStr):
+            f = _sys._getframe(1)
+            while f is not None and "crosshair" in f.f_code.co_filename:
+                f = f.f_back
+            if f is not None and f.f_code.co_filename.endswith(_MESSAGE_SITES):
+                return "<sym>"
+        if len(a) == 1:
+            (self,) = a
+            if isinstance(self, _bl.AnySymbolicStr):
+                return self
+            if type(self) in _CONTAINERS and _has_symbolic(self, 0):
+                # list.__str__ would call repr() of a symbolic and die with "__repr__ returned non-string"
+                return "<sym-container>"
+            with ResumedTracing():
+                return _bl.invoke_dunder(self, "__str__")
+    return str(*a)      # inside a patch's own code the call reaches the next lower layer (the real str)
+
+
+def _close_matches(word, possibilities, *a, **kw):
+    with NoTracing():
+        symbolic = isinstance(word, CrossHairValue) or word in ("<sym>", "<symstr>", "<sym-container>")
+    if symbolic:
+        return []
+    return _difflib.get_close_matches(word, possibilities, *a, **kw)
+
+
+_PATCH_REGISTRATIONS[str] = _msg_str
+_PATCH_REGISTRATIONS[_difflib.get_close_matches] = _close_matches
